@@ -12,8 +12,8 @@
    That these stages are chained as the model says (skel clean, staging, swap)
    is the publish model of C03 and the history correspondence (real runs
    compared with a fresh real mirror): see DESIGN.md. *)
-From AM.Model Require Import Base Path Download Stage Pipeline Converge RepoRun Deb822 PoolQueue Unpack ReleaseStage.
-From AM.Lemmas Require Import DownloadLemmas StageLemmas StageRunLemmas ConvergeLemmas RepoRunLemmas TwinStage PoolQueueLemmas UnpackLemmas UnpackExamples ReleaseStageLemmas ReleaseStageExamples.
+From AM.Model Require Import Base Path Targets Download Stage Pipeline Converge RepoRun Deb822 PoolQueue Unpack ReleaseCheck Select ReleaseStage Assembly.
+From AM.Lemmas Require Import DownloadLemmas StageLemmas StageRunLemmas ConvergeLemmas RepoRunLemmas TwinStage PoolQueueLemmas UnpackLemmas UnpackExamples ReleaseStageLemmas ReleaseStageExamples AssemblyLemmas AssemblyExamples.
 Open Scope string_scope.
 Open Scope list_scope.
 
@@ -311,3 +311,53 @@ Example stale_release_flavour_is_dropped :
   | _ => False
   end.
 Proof. exact release_stage_example. Qed.
+
+(* ---------------------------------------------------------------------------
+   Assembled (Model/Assembly.v): the verdict is ReleaseCheck.validate (C11) and the metadata queue is
+   Select.select (C10/C16: components, architectures, by-hash, compression variants, size and safety filters)
+   applied to the release files skel holds; the lists of indices the parsers read come from the configuration.
+   Both read nothing but the release files ([assembled_functions_read_only_release_files]), so the theorem above
+   applies to the run built from the models of the code itself ([mirror_is_function_of_upstream_assembled]). *)
+Theorem assembled_functions_read_only_release_files :
+  forall rd ign opt root cns x y,
+  (forall p, In p (release_paths_of cns) -> lookup x p = lookup y p) ->
+  validf_of rd cns x = validf_of rd cns y /\
+  metaq_of_release rd ign opt root cns x = metaq_of_release rd ign opt root cns y.
+Proof. exact assembled_ext. Qed.
+Print Assumptions assembled_functions_read_only_release_files.
+
+Theorem mirror_is_function_of_upstream_assembled :
+  forall relq retries rd ign opt root cns sb pb read u
+         (ann : dfile -> option (variant * N * Z)) (ann2 : dfile -> variant * N * Z)
+         skel_a mirror_a skel_b mirror_b va qa pa vb qb pb',
+  disjoint_files relq -> (forall f, In f relq -> rel_definite u ann f) ->
+  (forall p, In p (release_paths_of cns) -> In p (rel_paths relq)) ->
+  (forall s, announced_rel ann relq s ->
+     disjoint_files (metaq_of_release rd ign opt root cns s) /\
+     (forall f, In f (metaq_of_release rd ign opt root cns s) ->
+        good_meta f u (fst (fst (ann2 f))) (snd (fst (ann2 f))) (snd (ann2 f))) /\
+     (forall p, In p (rel_paths relq) -> ~ In p (flat_map all_paths (metaq_of_release rd ign opt root cns s)))) ->
+  run_assembled relq retries rd ign opt root cns sb pb read u skel_a mirror_a = Some (va, qa, pa) ->
+  run_assembled relq retries rd ign opt root cns sb pb read u skel_b mirror_b = Some (vb, qb, pb') ->
+  consistent_files qa -> forallb required_pool_file qa = true ->
+  va = vb /\ qa = qb /\ forall p, sizes pa p = sizes pb' p /\ sizes pa p = declared qa p.
+Proof. exact run_assembled_function_of_upstream. Qed.
+Print Assumptions mirror_is_function_of_upstream_assembled.
+
+Example assembled_run_example :
+  z_run [] [] = z_run z_stale_skel x_stale_mirror /\
+  match z_run z_stale_skel x_stale_mirror with
+  | Some (view, q, pool) =>
+      map fst view = ["dists/c/main/binary-amd64/Packages.xz"; "dists/c/main/source/Sources.xz"] /\
+      List.length q = 3 /\
+      map (sizes pool) ["pool/a.deb"; "pool/b.dsc"; "pool/old.deb"] = [Some 7%N; Some 5%N; None]
+  | None => False
+  end.
+Proof. exact assembled_example. Qed.
+
+Example assembled_selection :
+  map (fun f => (dname f, map vsource (variants f)))
+      (metaq_of_release z_reader [] BHYes (parse "/skel/r") [z_cn] [("dists/c/InRelease", {| fsize := 20; fmt := Date 1700000000 |})]) =
+  [("main/binary-amd64/Packages", ["dists/c/main/binary-amd64/Packages.xz"; "dists/c/main/binary-amd64/Packages.gz"]);
+   ("main/source/Sources", ["dists/c/main/source/Sources.xz"])].
+Proof. exact assembled_selection_example. Qed.
